@@ -111,9 +111,11 @@ impl StdRoutingLogic {
         ignore_macs: bool,
     ) -> Result<IngressNextAction, StandardRoutingError> {
         // Advance the path
+        let ingress_hop_index = path.curr_hop_field_idx() as usize;
         let advance_result = path.advance_ingress_with_validator(
             StandardValidator {
                 ingress: true,
+                ingress_hop_index,
                 now,
                 interface_link_type_lookup,
                 current_interface_id: ingress_interface_id,
@@ -181,8 +183,10 @@ impl StdRoutingLogic {
         ignore_macs: bool,
     ) -> Result<AsRoutingAction, StandardRoutingError> {
         // Advance the path
+        let ingress_hop_index = path.curr_hop_field_idx() as usize;
         let advance_result = path.advance_egress_with_validator(StandardValidator {
             ingress: false,
+            ingress_hop_index,
             current_interface_id: egress_if_id,
             now,
             interface_link_type_lookup,
@@ -477,6 +481,10 @@ impl StandardRoutingError {
 
 struct StandardValidator<'a, Lookup: Fn(u16) -> Option<AsRoutingInterfaceState>> {
     ingress: bool,
+    /// Index of the hop field the packet was received on. Only this hop field names the interface
+    /// the packet entered the AS through; the first hop field of the next segment, which is also
+    /// validated on a segment change, carries the (unused) ingress interface of its own segment.
+    ingress_hop_index: usize,
     now: ScionNetworkTime,
     interface_link_type_lookup: Lookup,
     current_interface_id: u16,
@@ -505,7 +513,8 @@ impl<'a, Lookup: Fn(u16) -> Option<AsRoutingInterfaceState>> AdvanceValidator
         match self.ingress {
             // Checks done on ingress
             true => {
-                if self.current_interface_id != 0
+                if hop_index == self.ingress_hop_index
+                    && self.current_interface_id != 0
                     && ingress_interface != 0
                     && ingress_interface != self.current_interface_id
                 {
